@@ -565,3 +565,87 @@ def nop_rules(chk, tab, prog, rule="NOP"):
         chk.require(e["bytes"] == want, rule, "%s/bytes/%d" % (rule, k + 1), e["loc"],
                     "entry %d is the recommended %d-byte NOP" % (k, k + 1), " ".join("%02x" % b for b in e["bytes"]))
     return len(nt)
+
+
+# ---------------------------------------------------------------------------------------------------------------------
+# SIGNCMP: an ordering comparison on a table column is evaluated in the signedness the table was written for
+# ---------------------------------------------------------------------------------------------------------------------
+
+def _type_signedness(prog, tname):
+    """'u' / 's' for the way a value of the named (field) type takes part in a comparison with an int constant (after the
+    integer promotions); None if the name cannot be resolved"""
+    from .core import qtype, walk
+    t = tname.replace("const ", "").replace("enum ", "").strip()
+    seen = 0
+    while t in prog.typedefs and seen < 5:
+        td = prog.typedefs[t]
+        under = (td.get("type") or {}).get("desugaredQualType") or qtype(td)
+        if under == t:
+            break
+        t = under.replace("enum ", "").strip()
+        seen += 1
+    if t in ("unsigned int", "unsigned", "unsigned long", "size_t", "uint32_t", "uint64_t", "unsigned long long"):
+        return "u"
+    if t in ("int", "long", "short", "char", "signed char", "unsigned char", "unsigned short", "_Bool", "bool", "uint8_t", "uint16_t",
+             "int8_t", "int16_t", "int32_t", "int64_t", "long long"):
+        return "s"
+    # an enumeration: unsigned int unless one of its enumerators is negative (gcc and clang)
+    mem = prog.enum_members(t)
+    if mem:
+        return "s" if min(v for _, v in mem) < 0 else "u"
+    return None
+
+
+def signcmp_rule(chk, tab, prog, rule="SIGNCMP"):
+    """Cells such as NA (-1) sit in columns of enumeration type; `column > C` is then decided in unsigned arithmetic and is
+    true for NA.  Changing the declared type of the column silently flips such tests.  For every ordering comparison of a
+    table column with a constant, the truth value over all rows under the comparison's current signedness must equal the
+    truth value under the signedness of the column type of the pinned tree (ref/schema.json)."""
+    from .core import kids, strip, walk, qtype, expr_str, loc_str, ConstEval
+    from . import schema as SC
+    try:
+        with open(SC.SCHEMA) as f:
+            ref = {x[0]: x[1] for x in json.load(f)["structs"].get("instr_table", [])}
+    except (OSError, ValueError, KeyError):
+        raise AnalysisBroken("ref/schema.json has no instr_table")
+    ce = ConstEval(prog)
+    ops = {"<": lambda a, b: a < b, ">": lambda a, b: a > b, "<=": lambda a, b: a <= b, ">=": lambda a, b: a >= b}
+    n = 0
+    for fn, f in sorted(prog.lib_functions().items()):
+        for m in walk(prog.body(f)):
+            if m.get("kind") != "BinaryOperator" or m.get("opcode") not in ops:
+                continue
+            l, r = kids(m)
+            for col, other, swapped in ((l, r, False), (r, l, True)):
+                c0 = strip(col, casts=True)
+                if c0.get("kind") != "MemberExpr" or "instr_table" not in qtype(strip(kids(c0)[0], casts=True)):
+                    continue
+                fld = c0.get("name")
+                c = ce.try_eval(strip(other, casts=True))
+                if c is None or fld not in ref:
+                    continue
+                n += 1
+                cur = "u" if ("unsigned" in qtype(l) or "unsigned" in qtype(r)) else "s"
+                was = _type_signedness(prog, ref[fld])
+                key = "%s/%s/%s@%s" % (rule, fn, fld, loc_str(m))
+                if was is None:
+                    chk.broken(rule, key, loc_str(m), "the signedness of the pinned column type %s is known" % ref[fld], "cannot resolve the type")
+                    continue
+                if cur == was:
+                    chk.ok(rule, key, loc_str(m), "`%s` is decided in the arithmetic (%s) the column %s was declared for" % (expr_str(m), "unsigned" if cur == "u" else "signed", fld))
+                    continue
+                op = m["opcode"]
+                diff = []
+                for row in tab.rows:
+                    v = row.f.get(fld)
+                    if v is None:
+                        continue
+                    def ev(sig):
+                        a, b = (v & 0xffffffff, c & 0xffffffff) if sig == "u" else (v, c)
+                        return ops[op](b, a) if swapped else ops[op](a, b)
+                    if ev(cur) != ev(was):
+                        diff.append(row.instr_name or str(row.idx))
+                chk.require(not diff, rule, key, loc_str(m),
+                            "`%s` gives every row the truth value it had with the column declared %s" % (expr_str(m), ref[fld]),
+                            "now decided in %s arithmetic: differs for rows %s" % ("unsigned" if cur == "u" else "signed", sorted(set(diff))[:8]))
+    return n
